@@ -14,6 +14,7 @@ structure Rel (s : St) (v : View) : Prop where
   eof : v.sawClosed = s.eof
   read : s.eof = false → s.read = v.got
   ended : s.eof = true → ended s = true
+  le : s.read ≤ s.sent
 
 theorem rel_init : Rel {} {} := by
   constructor <;> simp
@@ -21,7 +22,7 @@ theorem rel_init : Rel {} {} := by
 /-- an allowed call is `CallOk` -/
 theorem callOk_of_allowed {s : St} {v : View} (h : Rel s v) {o : Op} {r : Out}
     (ha : (allowed s o).contains r = true) : CallOk v o r := by
-  obtain ⟨h1, h2, h3, h4, h5, h6, h7⟩ := h
+  obtain ⟨h1, h2, h3, h4, h5, h6, h7, h8⟩ := h
   cases o with
   | shutdown => simpa [allowed, CallOk] using ha
   | disconnect => simpa [allowed, CallOk] using ha
@@ -81,31 +82,39 @@ theorem callOk_of_allowed {s : St} {v : View} (h : Rel s v) {o : Op} {r : Out}
             rw [hend] at hen
             simp only [View.dead]
             simp only [Bool.not_eq_true] at hen
-            simp [hen]
+            refine ⟨by simp [hen], ?_⟩
+            rw [h1, ← hgot]
+            omega
 
 /-- one step of the model keeps the relation -/
 theorem rel_step {s s' : St} {v : View} (h : Rel s v) {e : Ev} (hs : step s e = some s') : Rel s' (v.see e) := by
-  obtain ⟨h1, h2, h3, h4, h5, h6, h7⟩ := h
+  obtain ⟨h1, h2, h3, h4, h5, h6, h7, h8⟩ := h
   cases e with
   | peerSend =>
     simp only [step] at hs
     split at hs
     · cases hs
-      refine ⟨?_, h2, h3, h4, h5, h6, ?_⟩
+      refine ⟨?_, h2, h3, h4, h5, h6, ?_, Nat.le_succ_of_le h8⟩
       · simp [View.see, h1]
       · intro he; have := h7 he; simpa [ended] using this
+    · cases hs
+  | peerPart =>
+    simp only [step] at hs
+    split at hs
+    · cases hs
+      exact ⟨h1, h2, h3, h4, h5, h6, fun he => by have := h7 he; simpa [ended] using this, h8⟩
     · cases hs
   | peerFin =>
     simp only [step] at hs
     split at hs
     · cases hs
-      exact ⟨h1, h2, h3, by simp [View.see], h5, h6, fun _ => by simp [ended]⟩
+      exact ⟨h1, h2, h3, by simp [View.see], h5, h6, fun _ => by simp [ended], h8⟩
     · cases hs
   | peerRst =>
     simp only [step] at hs
     split at hs
     · cases hs
-      exact ⟨h1, h2, h3, by simp [View.see], h5, h6, fun _ => by simp [ended]⟩
+      exact ⟨h1, h2, h3, by simp [View.see], h5, h6, fun _ => by simp [ended], h8⟩
     · cases hs
   | call o r =>
     simp only [step] at hs
@@ -117,32 +126,48 @@ theorem rel_step {s s' : St} {v : View} (h : Rel s v) {e : Ev} (hs : step s e = 
         simp only [apply, View.see]
         split
         · next hg =>
-          refine ⟨h1, h2, ?_, h4, h5, h6, h7⟩
+          refine ⟨h1, h2, ?_, h4, h5, h6, h7, h8⟩
           have : v.gone = true := by rw [h2]; exact hg
           rw [h3, this]; simp
         · next hg =>
-          refine ⟨h1, h2, by simp, h4, h5, h6, fun _ => by simp [ended]⟩
+          refine ⟨h1, h2, by simp, h4, h5, h6, fun _ => by simp [ended], h8⟩
       | disconnect =>
         simp only [apply, View.see]
-        exact ⟨h1, rfl, by simp, h4, h5, h6, fun _ => by simp [ended]⟩
+        exact ⟨h1, rfl, by simp, h4, h5, h6, fun _ => by simp [ended], h8⟩
       | send =>
         have hv : v.see (.call .send r) = v := by cases r <;> rfl
         rw [hv]
         simp only [apply]
         split
-        · exact ⟨h1, h2, h3, h4, h5, h6, fun he => by have := h7 he; simpa [ended] using this⟩
-        · exact ⟨h1, h2, h3, h4, h5, h6, h7⟩
+        · exact ⟨h1, h2, h3, h4, h5, h6, fun he => by have := h7 he; simpa [ended] using this, h8⟩
+        · exact ⟨h1, h2, h3, h4, h5, h6, h7, h8⟩
       | readline =>
         cases r with
         | line n =>
           simp only [apply, View.see]
-          refine ⟨h1, h2, h3, h4, h5, ?_, fun he => by have := h7 he; simpa [ended] using this⟩
+          have hlt : s.read < s.sent := by
+            -- a line is handed out only when an unread complete line exists
+            by_cases hg : s.gone = true
+            · simp only [allowed, hg, if_true] at ha
+              split at ha
+              · next hc => simp only [Bool.and_eq_true, decide_eq_true_eq] at hc; exact hc.1
+              · simp at ha
+            · have hg' : s.gone = false := by simpa using hg
+              simp only [allowed, hg', Bool.false_eq_true, if_false] at ha
+              by_cases he : s.eof = true
+              · simp [he] at ha
+              · have he' : s.eof = false := by simpa using he
+                simp only [he', Bool.false_eq_true, if_false] at ha
+                split at ha
+                · next hlt => exact hlt
+                · split at ha <;> simp at ha
+          refine ⟨h1, h2, h3, h4, h5, ?_, fun he => by have := h7 he; simpa [ended] using this, by simp only; omega⟩
           intro he
           have := h6 he
           simp [this]
         | closed =>
           simp only [apply, View.see]
-          refine ⟨h1, h2, h3, h4, by simp, by simp, ?_⟩
+          refine ⟨h1, h2, h3, h4, by simp, by simp, ?_, h8⟩
           intro _
           -- `ConnectionClosed` is allowed only on an ended connection
           by_cases hg : s.gone = true
@@ -163,10 +188,10 @@ theorem rel_step {s s' : St} {v : View} (h : Rel s v) {e : Ev} (hs : step s e = 
               · split at ha
                 · next hen => simpa [ended] using hen
                 · simp at ha
-        | nothing => exact ⟨h1, h2, h3, h4, h5, h6, h7⟩
-        | ok => exact ⟨h1, h2, h3, h4, h5, h6, h7⟩
-        | connErr => exact ⟨h1, h2, h3, h4, h5, h6, h7⟩
-        | otherErr c => exact ⟨h1, h2, h3, h4, h5, h6, h7⟩
+        | nothing => exact ⟨h1, h2, h3, h4, h5, h6, h7, h8⟩
+        | ok => exact ⟨h1, h2, h3, h4, h5, h6, h7, h8⟩
+        | connErr => exact ⟨h1, h2, h3, h4, h5, h6, h7, h8⟩
+        | otherErr c => exact ⟨h1, h2, h3, h4, h5, h6, h7, h8⟩
     · cases hs
 
 /-- every event sequence the model can follow satisfies the contract -/
@@ -188,8 +213,105 @@ theorem contract_of_run : ∀ (evs : List Ev) (s s' : St) (v : View) (i : Nat), 
         · next ha => exact callOk_of_allowed hr ha
         · cases hs
       | peerSend => trivial
+      | peerPart => trivial
       | peerFin => trivial
       | peerRst => trivial
+    · cases h
+
+theorem line_allowed {s : St} {n : Nat} (ha : (allowed s .readline).contains (.line n) = true) :
+    n = s.read ∧ s.read < s.sent := by
+  by_cases hg : s.gone = true
+  · simp only [allowed, hg, if_true] at ha
+    split at ha
+    · next hc =>
+      simp only [Bool.and_eq_true, decide_eq_true_eq] at hc
+      simp only [List.contains_cons, List.contains_nil, Bool.or_false, Bool.or_eq_true, beq_iff_eq] at ha
+      rcases ha with ha | ha
+      · cases ha
+      · cases ha; exact ⟨rfl, hc.1⟩
+    · simp at ha
+  · have hg' : s.gone = false := by simpa using hg
+    simp only [allowed, hg', Bool.false_eq_true, if_false] at ha
+    by_cases he : s.eof = true
+    · simp [he] at ha
+    · have he' : s.eof = false := by simpa using he
+      simp only [he', Bool.false_eq_true, if_false] at ha
+      split at ha
+      · next hlt =>
+        split at ha
+        · simp only [List.contains_cons, List.contains_nil, Bool.or_false, Bool.or_eq_true, beq_iff_eq] at ha
+          rcases ha with ha | ha
+          · cases ha; exact ⟨rfl, hlt⟩
+          · cases ha
+        · simp only [List.contains_cons, List.contains_nil, Bool.or_false, beq_iff_eq] at ha
+          cases ha; exact ⟨rfl, hlt⟩
+      · split at ha <;> simp at ha
+
+theorem lines_in_order_from : ∀ (evs : List Ev) (s s' : St) (i : Nat), run s evs i = .ok s' →
+    s.read ≤ s'.read ∧ linesOf evs = List.range' s.read (s'.read - s.read) := by
+  intro evs
+  induction evs with
+  | nil => intro s s' i h; simp only [run] at h; cases h; simp [linesOf]
+  | cons e es ih =>
+    intro s s' i h
+    simp only [run] at h
+    split at h
+    · next s1 hs =>
+      have ⟨hle, hl⟩ := ih s1 s' (i + 1) h
+      have same : s1.read = s.read → (∀ n, e ≠ .call .readline (.line n)) →
+          s.read ≤ s'.read ∧ linesOf (e :: es) = List.range' s.read (s'.read - s.read) := by
+        intro hr hne
+        rw [hr] at hle hl
+        refine ⟨hle, ?_⟩
+        rw [← hl]
+        cases e with
+        | call o r =>
+          cases o <;> try rfl
+          cases r <;> try rfl
+          exact absurd rfl (hne _)
+        | _ => rfl
+      cases e with
+      | peerSend => simp only [step] at hs; split at hs <;> cases hs; exact same rfl (by intro n; simp)
+      | peerPart => simp only [step] at hs; split at hs <;> cases hs; exact same rfl (by intro n; simp)
+      | peerFin => simp only [step] at hs; split at hs <;> cases hs; exact same rfl (by intro n; simp)
+      | peerRst => simp only [step] at hs; split at hs <;> cases hs; exact same rfl (by intro n; simp)
+      | call o r =>
+        simp only [step] at hs
+        split at hs
+        · next ha =>
+          cases hs
+          cases o with
+          | send => exact same (by simp only [apply]; split <;> rfl) (by intro n; simp)
+          | shutdown => exact same (by simp only [apply]; split <;> rfl) (by intro n; simp)
+          | disconnect => exact same (by simp [apply]) (by intro n; simp)
+          | readline =>
+            cases r with
+            | line n =>
+              obtain ⟨hn, _⟩ := line_allowed ha
+              simp only [apply] at hle hl
+              refine ⟨by omega, ?_⟩
+              simp only [linesOf, hl, hn]
+              have : s'.read - s.read = (s'.read - (s.read + 1)) + 1 := by omega
+              rw [this, List.range'_succ]
+            | closed => exact same (by simp [apply]) (by intro n; simp)
+            | nothing => exact same (by simp [apply]) (by intro n; simp)
+            | ok => exact same (by simp [apply]) (by intro n; simp)
+            | connErr => exact same (by simp [apply]) (by intro n; simp)
+            | otherErr c => exact same (by simp [apply]) (by intro n; simp)
+        · cases hs
+    · cases h
+
+/-- the relation holds at the end of every run -/
+theorem rel_of_run : ∀ (evs : List Ev) (s s' : St) (v : View) (i : Nat), Rel s v → run s evs i = .ok s' →
+    ∃ v', Rel s' v' := by
+  intro evs
+  induction evs with
+  | nil => intro s s' v i hr h; simp only [run] at h; cases h; exact ⟨v, hr⟩
+  | cons e es ih =>
+    intro s s' v i hr h
+    simp only [run] at h
+    split at h
+    · next s1 hs => exact ih s1 s' (v.see e) (i + 1) (rel_step hr hs) h
     · cases h
 
 end Frappy.Client.Conn
